@@ -42,6 +42,7 @@ type c07Reply struct {
 	Ack    bool `json:"ack"`    // ack or response
 	From   int  `json:"from"`   // responder 0..3
 	IDMode int  `json:"idmode"` // 0 this query's (LTime,id); 1 wrong id; 2 wrong LTime; 3 this LTime with another query's id; 4 another query's LTime with this id
+	Wrong  int  `json:"wrong,omitempty"` // which wrong value (idmode 1, 2): boundary values included, see wrongID / wrongLTime
 	Relay  bool `json:"relay"`  // wrapped in a relay envelope addressed to the node itself
 	Copies int  `json:"copies"` // exact duplicates injected back to back (phase 0/2); burst length/8 in phase 1
 	Phase  int  `json:"phase"`  // 0 right away, 1 burst of distinct senders across the deadline, 2 after the streams closed
@@ -66,13 +67,37 @@ func genC07(t *rapid.T) c07Case {
 			Target: rapid.IntRange(0, nq-1).Draw(t, "target"),
 			Ack:    rapid.Bool().Draw(t, "isack"),
 			From:   rapid.IntRange(0, 3).Draw(t, "from"),
-			IDMode: rapid.SampledFrom([]int{0, 0, 0, 0, 1, 2, 3, 4}).Draw(t, "idmode"),
+			IDMode: rapid.SampledFrom([]int{0, 0, 0, 0, 1, 1, 2, 3, 4}).Draw(t, "idmode"),
+			Wrong:  rapid.IntRange(0, 7).Draw(t, "wrong"),
 			Relay:  rapid.IntRange(0, 3).Draw(t, "relay") == 0,
 			Copies: rapid.SampledFrom([]int{1, 1, 2, 2, 3}).Draw(t, "copies"),
 			Phase:  rapid.SampledFrom([]int{0, 0, 0, 0, 1, 2, 2}).Draw(t, "phase"),
 		})
 	}
 	return c
+}
+
+// wrongID returns an id different from the query's, biased to the values a
+// special case in the comparison would single out (0, 1, neighbours, bit flips).
+func wrongID(id uint32, which int) uint32 {
+	cands := []uint32{id ^ 0x2A5A5A5, 0, 1, id + 1, id - 1, ^id, id ^ 0x80000000, 0xFFFFFFFF}
+	for k := 0; k < len(cands); k++ {
+		if c := cands[(which+k)%len(cands)]; c != id {
+			return c
+		}
+	}
+	return id + 2
+}
+
+// wrongLTime returns a Lamport time different from the query's.
+func wrongLTime(lt serf.LamportTime, which int) serf.LamportTime {
+	cands := []serf.LamportTime{lt + 7, 0, lt + 1, lt - 1, lt + 1<<32, lt ^ (1 << 63), 1<<64 - 2, lt + 512}
+	for k := 0; k < len(cands); k++ {
+		if c := cands[(which+k)%len(cands)]; c != lt {
+			return c
+		}
+	}
+	return lt + 2
 }
 
 type c07Obs struct {
@@ -199,9 +224,9 @@ func bodyC07(c c07Case, x *vkit.Ctx) {
 		lt, id := ids[tq].lt, ids[tq].id
 		switch r.IDMode {
 		case 1:
-			id ^= 0x2A5A5A5
+			id = wrongID(id, r.Wrong)
 		case 2:
-			lt += 7
+			lt = wrongLTime(lt, r.Wrong)
 		case 3:
 			if other != tq {
 				id = ids[other].id
